@@ -182,7 +182,8 @@ def cases(draw):
     return {"tree": tree, "route": draw(gen.routes), "fspec": fspec, "tfmt": tfmt,
             "sel": [draw(st.integers(0, 10000)) for _ in range(3)],
             "split": draw(st.one_of(st.none(), st.tuples(st.integers(0, 3), st.integers(0, 5)))),
-            "mutate": draw(st.one_of(st.none(), st.none(), st.tuples(st.integers(0, 5), st.integers(0, 5), st.integers(0, 1))))}
+            "mutate": draw(st.one_of(st.none(), st.none(), st.tuples(st.integers(0, 5), st.integers(0, 5), st.integers(0, 1)))),
+            "late": draw(st.one_of(st.none(), st.tuples(st.integers(0, 11), st.integers(0, 2))))}
 
 
 def _small_trees(shape, leaf_opts):
@@ -216,7 +217,8 @@ def small_cases(tier):
                         fspec[r][fld] = 32 ** e
                         e += 1
                 yield {"tree": {"rank_ids": rank_ids, "shape": shape, "default": 0, "auth": True, "tree": tree},
-                       "route": build.ROUTES[i % len(build.ROUTES)], "fspec": fspec, "tfmt": None, "sel": [i, i + 1, i + 2]}
+                       "route": build.ROUTES[i % len(build.ROUTES)], "fspec": fspec, "tfmt": None, "sel": [i, i + 1, i + 2],
+                       "late": [i, i // 3] if i % 2 else None}
                 i += 1
 
 
@@ -274,19 +276,11 @@ def check(case, rec):
         rec.cls("split-tensor")
     case = dict(case, fspec=fspec_in)
 
-    # raw walk of the real tree: the oracle's only view of the tensor
-    raw = observe.tree_of(t.getRoot())
-    levels = fibers_per_level(raw, d)
-
     given = copy.deepcopy(case["fspec"])
     full = fill(case["fspec"], rank_ids)
-    ctx = f"tree={raw} shape={shape} rank_ids={rank_ids} spec={case['fspec']}"
-
     fm = Format(t, given)
 
     # -- defaults of missing fields, read back through every getter
-    if fm.spec != full:
-        raise Violation("spec-defaults", f"filled Format.spec is {fm.spec}, expected {full}; given {case['fspec']}")
     for r in rank_ids:
         s = full[r]
         for name, got, want in (("getCBits", fm.getCBits(r), s["cbits"]), ("getPBits", fm.getPBits(r), s["pbits"]),
@@ -297,50 +291,78 @@ def check(case, rec):
                                 ("getElem-elem", fm.getElem(r, "elem"), s["cbits"] + s["pbits"])):
             if got != want or type(got) is not type(want):
                 raise Violation("field-readback", f"{name}({r!r}) = {got!r}, expected {want!r}; given spec {case['fspec']}")
-    _expect("getRoot", fm.getRoot(), full["root"]["hbits"] + full["root"]["pbits"], ctx)
 
-    # -- ranks and tensor
-    def rank_total(i):
-        return full[rank_ids[i]]["rhbits"] + sum(fiber_fp(full, rank_ids, shape, i, len(n)) for n in levels[i])
-
-    want_ranks = [rank_total(i) for i in range(d)]
-    want_tensor = full["root"]["hbits"] + full["root"]["pbits"] + sum(want_ranks)
-
-    def ranks_and_tensor(tag):
-        for i, r in enumerate(rank_ids):
-            _expect(f"getRank{tag}", fm.getRank(r), want_ranks[i],
-                    f"rank {r} (depth {i}, {len(levels[i])} fibers with {[len(n) for n in levels[i]]} elements); {ctx}")
-        _expect(f"getTensor{tag}", fm.getTensor(), want_tensor, ctx)
-
-    ranks_and_tensor("")
-
-    # -- every partial point of the shape: fiber and sub-tree footprints
-    n_absent = n_stored_empty = 0
-    for k in range(d):
-        for point in itertools.product(*[range(s) for s in shape[:k]]):
-            node, status = node_at(raw, point)
-            if status == "absent":
-                n_absent += 1
-            elif k > 0 and not holds_value(node, d - k, default):
-                n_stored_empty += 1
-            _expect("getFiber", fm.getFiber(*point), fiber_fp(full, rank_ids, shape, k, len(node)),
-                    f"point={point} ({status}, {len(node)} stored elements, rank {rank_ids[k]}); {ctx}")
-            _expect("getSubTree", fm.getSubTree(*point), subtree_fp(full, rank_ids, shape, default, node, k),
-                    f"point={point} ({status}); {ctx}")
-
-    # -- full-depth points: one element of the leaf rank
-    leaf = full[rank_ids[-1]]
     allpts = list(itertools.product(*[range(s) for s in shape]))
-    stored_pts = sorted(p for p in allpts if node_at(raw, p[:-1])[1] == "stored"
-                        and any(model.tuplify(c) == p[-1] for c, _ in node_at(raw, p[:-1])[0]))
-    picks = [allpts[s % len(allpts)] for s in case["sel"]]
-    if stored_pts:
-        picks.append(stored_pts[case["sel"][0] % len(stored_pts)])
-    for p in picks:
-        _expect("getSubTree-leaf", fm.getSubTree(*p), leaf["cbits"] + leaf["pbits"], f"full-depth point={p}; {ctx}")
 
-    # -- the sub-tree walks must not have changed what a rank / the tensor holds
-    ranks_and_tensor("-again")
+    def survey(tag):
+        """every footprint query against the sums over the tree as it is NOW (the same Format object)"""
+        # raw walk of the real tree: the oracle's only view of the tensor
+        raw = observe.tree_of(t.getRoot())
+        levels = fibers_per_level(raw, d)
+        ctx = f"tree={raw} shape={shape} rank_ids={rank_ids} spec={case['fspec']}{tag}"
+        _expect("getRoot", fm.getRoot(), full["root"]["hbits"] + full["root"]["pbits"], ctx)
+
+        # -- ranks and tensor
+        def rank_total(i):
+            return full[rank_ids[i]]["rhbits"] + sum(fiber_fp(full, rank_ids, shape, i, len(n)) for n in levels[i])
+
+        want_ranks = [rank_total(i) for i in range(d)]
+        want_tensor = full["root"]["hbits"] + full["root"]["pbits"] + sum(want_ranks)
+
+        def ranks_and_tensor(tag2):
+            for i, r in enumerate(rank_ids):
+                _expect(f"getRank{tag2}", fm.getRank(r), want_ranks[i],
+                        f"rank {r} (depth {i}, {len(levels[i])} fibers with {[len(n) for n in levels[i]]} elements); "
+                        f"{ctx}")
+            _expect(f"getTensor{tag2}", fm.getTensor(), want_tensor, ctx)
+
+        ranks_and_tensor("")
+
+        # -- every partial point of the shape: fiber and sub-tree footprints
+        n_absent = n_stored_empty = 0
+        for k in range(d):
+            for point in itertools.product(*[range(s) for s in shape[:k]]):
+                node, status = node_at(raw, point)
+                if status == "absent":
+                    n_absent += 1
+                elif k > 0 and not holds_value(node, d - k, default):
+                    n_stored_empty += 1
+                _expect("getFiber", fm.getFiber(*point), fiber_fp(full, rank_ids, shape, k, len(node)),
+                        f"point={point} ({status}, {len(node)} stored elements, rank {rank_ids[k]}); {ctx}")
+                _expect("getSubTree", fm.getSubTree(*point), subtree_fp(full, rank_ids, shape, default, node, k),
+                        f"point={point} ({status}); {ctx}")
+
+        # -- full-depth points: one element of the leaf rank
+        leaf = full[rank_ids[-1]]
+        stored_pts = sorted(p for p in allpts if node_at(raw, p[:-1])[1] == "stored"
+                            and any(model.tuplify(c) == p[-1] for c, _ in node_at(raw, p[:-1])[0]))
+        picks = [allpts[s % len(allpts)] for s in case["sel"]]
+        if stored_pts:
+            picks.append(stored_pts[case["sel"][0] % len(stored_pts)])
+        for p in picks:
+            _expect("getSubTree-leaf", fm.getSubTree(*p), leaf["cbits"] + leaf["pbits"], f"full-depth point={p}; {ctx}")
+
+        # -- the sub-tree walks must not have changed what a rank / the tensor holds
+        ranks_and_tensor("-again")
+        return raw, levels, n_absent, n_stored_empty
+
+    raw, levels, n_absent, n_stored_empty = survey("")
+
+    # -- the tensor changes after the Format object was built and queried (the normal flow for an output
+    # tensor: describe it, run the kernel, ask again): the same object must describe the tree as it is now
+    late = case.get("late")
+    if late and not sp:
+        p = allpts[late[0] % len(allpts)]
+        if late[1] % 3 == 2 and d >= 2 and t.getRoot().payloads:
+            t.getRoot().payloads[late[0] % len(t.getRoot().payloads)].clear()
+            rec.cls("late-clear")
+        else:
+            ref = t.getPayloadRef(*p)
+            ref <<= (7 if late[1] % 3 == 0 else default)
+            rec.cls("late-write")
+        changed = observe.tree_of(t.getRoot()) != raw
+        rec.cls("late-change-visible", changed)
+        survey(" (after a later change of the tensor)")
 
     # -- classification
     fmts = [full[r]["format"] for r in rank_ids]
